@@ -699,7 +699,7 @@ def _kdesc(rk):
 
 
 def check(ctx):
-    N = ctx.pick(4, 6)
+    N = ctx.pick(4, 7)
     R = ctx.pick(3, 4)
     L = ctx.pick(2, 3)
     units = [("vec", k, n) for k in KINDS for n in range(0, N + 1)]
